@@ -215,10 +215,12 @@ func firstLine(s string) string {
 	return s
 }
 
-func selftest(repo, seedsDir, known string) int {
-	var props []string
-	for id := range registry {
-		props = append(props, id)
+func selftest(repo, seedsDir, known string, only []string) int {
+	props := only
+	if len(props) == 0 {
+		for id := range registry {
+			props = append(props, id)
+		}
 	}
 	res := runControls(repo, seedsDir, known, props)
 	bad := 0
